@@ -236,61 +236,96 @@ void harness_is_zero(void) {
     free(w);
 }
 
-/* ---- serialise / deserialise round trip of scalar values (C07) --------------------------------------------------------------- */
+/* ---- serialise / deserialise of scalar values against the wire layout (C07) ----------------------------------------------------
+ * Specification function shared by the two jobs: LAYOUT(v) = [kind : sizeof(cif_kind_tp)] [n : sizeof(ssize_t)] [n code units] [quoted : sizeof(cif_quoted_tp)]
+ * for CHAR and NUMB values, [kind] alone for UNK and NA. serialize_layout proves cif_value_serialize(sv) == LAYOUT(v); deserialize_layout
+ * proves cif_value_deserialize(LAYOUT(v)) == v. Their composition is the round trip. The text length is a constant of the job (RTN):
+ * a symbolic length makes the allocation size in DESERIALIZE_USTRING symbolic, which CBMC cannot flatten. */
+#ifdef VERIF_SCALAR_ONLY
 #ifndef RTN
 #define RTN 3
 #endif
+#define L_KIND 0
+#define L_SIZE (sizeof(cif_kind_tp))
+#define L_TEXT (L_SIZE + sizeof(ssize_t))
+#define L_QUOT (L_TEXT + RTN * sizeof(UChar))
+#define L_END  (L_QUOT + sizeof(cif_quoted_tp))
+/* model of ICU u_strlen for these two jobs: answers the constant RTN and asserts that this is the right answer for the argument */
+int32_t u_strlen(const UChar *s) {
+    for (int i = 0; i < RTN; i++) POST(s[i] != 0, "u_strlen model: a string of exactly RTN units");
+    POST(s[RTN] == 0, "u_strlen model: a string of exactly RTN units");
+    return RTN;
+}
+static ssize_t rd_ssize(const char *p) { ssize_t x; memcpy(&x, p, sizeof x); return x; }
+static int rd_int(const char *p) { int x; memcpy(&x, p, sizeof x); return x; }
+static UChar rd_uchar(const char *p) { UChar x; memcpy(&x, p, sizeof x); return x; }
 struct in_rt { UChar text[RTN]; int quoted; int kind; };
 DECL_IN(in_rt)
-static int rt_same_ustr(const UChar *a, const UChar *b) { for (int i = 0; i <= RTN + 8; i++) { if (a[i] != b[i]) return 0; if (!a[i]) return 1; } return 1; }
-static int rt_same_str(const char *a, const char *b) { if (a == NULL || b == NULL) return a == b; for (int i = 0; i <= 16; i++) { if (a[i] != b[i]) return 0; if (!a[i]) return 1; } return 1; }
-void harness_roundtrip_char(void) {
+static UChar rt_text[RTN + 1];
+static const UChar rt_num[] = { '-', '1', '.', '5', '0', 'e', '2', '(', '3', ')', 0 };   /* used when RTN == 10 and the kind is NUMB */
+static void rt_fill_text(const struct in_rt *in, int numb) {
+    for (int i = 0; i < RTN; i++) rt_text[i] = numb ? rt_num[i] : in->text[i];
+    rt_text[RTN] = 0;
+}
+void harness_serialize_layout(void) {
     struct in_rt in = GET_IN(in_rt);
     for (int i = 0; i < RTN; i++) PRE(in.text[i] != 0);
-    PRE(in.quoted == CIF_QUOTED || in.quoted == CIF_NOT_QUOTED);
-    PRE(in.kind == CIF_CHAR_KIND || in.kind == CIF_UNK_KIND || in.kind == CIF_NA_KIND);
-    cif_value_tp *v = malloc(sizeof *v); PRE(v != NULL);
-    v->kind = (cif_kind_tp)in.kind;
-    if (in.kind == CIF_CHAR_KIND) {
-        UChar *t = malloc((RTN + 1) * sizeof(UChar)); PRE(t != NULL);
-        for (int i = 0; i < RTN; i++) t[i] = in.text[i];
-        t[RTN] = 0; v->as_char.text = t; v->as_char.quoted = (cif_quoted_tp)in.quoted;
-    }
+    PRE(in.kind == CIF_CHAR_KIND || in.kind == CIF_NUMB_KIND || in.kind == CIF_UNK_KIND || in.kind == CIF_NA_KIND);
+    rt_fill_text(&in, 0);
+    cif_value_tp *sv = malloc(sizeof *sv); PRE(sv != NULL);
+    sv->kind = (cif_kind_tp)in.kind;
+    if (in.kind == CIF_CHAR_KIND || in.kind == CIF_NUMB_KIND) { sv->as_char.text = rt_text; sv->as_char.quoted = (cif_quoted_tp)in.quoted; }
     buffer_tp *buf = NULL;
-    int r = cif_value_serialize(v, &buf);
-    PRE(r == CIF_OK);   /* allocation failure aside */
-    cif_value_tp *w = malloc(sizeof *w); PRE(w != NULL); w->kind = CIF_UNK_KIND;
-    int r2 = cif_value_deserialize(buf->for_writing.start, buf->for_writing.limit, w);
-    PRE(r2 != CIF_MEMORY_ERROR);
-    POST(r2 == CIF_OK && w->kind == v->kind, "C07 a stored value is read back with the same kind");
-    if (r2 == CIF_OK && in.kind == CIF_CHAR_KIND) {
-        POST(w->as_char.quoted == v->as_char.quoted, "C07 quoted status read back unchanged");
-        POST(w->as_char.text != v->as_char.text && rt_same_ustr(w->as_char.text, v->as_char.text), "C07 text read back identical, in storage of its own");
-        REACH("char-roundtrip");
+    int r = cif_value_serialize(sv, &buf);
+    PRE(r != CIF_MEMORY_ERROR);
+    POST(r == CIF_OK && buf != NULL, "C07 serialising a scalar value succeeds (allocation failure aside)");
+    if (r == CIF_OK) {
+        const char *b = buf->for_writing.start;
+        POST(rd_int(b + L_KIND) == (int)sv->kind, "C07 layout: the kind comes first");
+        if (in.kind == CIF_CHAR_KIND || in.kind == CIF_NUMB_KIND) {
+            POST(buf->for_writing.limit == L_END && buf->for_writing.position == L_END, "C07 layout: total length");
+            POST(rd_ssize(b + L_SIZE) == RTN, "C07 layout: the text length follows the kind");
+            for (int i = 0; i < RTN; i++) POST(rd_uchar(b + L_TEXT + i * sizeof(UChar)) == in.text[i], "C07 layout: the code units of the text, in order");
+            POST(rd_int(b + L_QUOT) == (int)sv->as_char.quoted, "C07 layout: the quoted flag comes last");
+            REACH("text-layout");
+        } else {
+            POST(buf->for_writing.limit == L_SIZE, "C07 layout: UNK and NA values are their kind alone");
+            REACH("kind-only-layout");
+        }
     }
-    if (in.kind != CIF_CHAR_KIND) REACH("unk-na-roundtrip");
 }
-void harness_roundtrip_numb(void) {
+static char rt_raw[L_END];
+void harness_deserialize_layout(void) {
     struct in_rt in = GET_IN(in_rt);
-    PRE(in.quoted == CIF_QUOTED || in.quoted == CIF_NOT_QUOTED);
-    /* a concrete number text: the point of this lemma is the wire format and the order of the deserialisation steps, not the number grammar (C10) */
-    static const UChar num[] = { '-', '1', '.', '5', '0', 'e', '2', '(', '3', ')', 0 };
-    UChar *t = malloc(sizeof num); PRE(t != NULL);
-    for (unsigned i = 0; i < sizeof num / sizeof num[0]; i++) t[i] = num[i];
-    cif_value_tp *v = malloc(sizeof *v); PRE(v != NULL); v->kind = CIF_UNK_KIND;
-    PRE(cif_value_parse_numb(v, t) == CIF_OK);
-    POST(v->kind == CIF_NUMB_KIND && v->as_numb.quoted == CIF_NOT_QUOTED, "C07/C10 a freshly parsed number is unquoted");
-    v->as_numb.quoted = (cif_quoted_tp)in.quoted;
-    buffer_tp *buf = NULL;
-    PRE(cif_value_serialize(v, &buf) == CIF_OK);
-    cif_value_tp *w = malloc(sizeof *w); PRE(w != NULL); w->kind = CIF_UNK_KIND;
-    int r2 = cif_value_deserialize(buf->for_writing.start, buf->for_writing.limit, w);
-    PRE(r2 != CIF_MEMORY_ERROR);
-    POST(r2 == CIF_OK && w->kind == CIF_NUMB_KIND, "C07 a stored number is read back as a number");
-    if (r2 == CIF_OK) {
-        POST(w->as_numb.quoted == v->as_numb.quoted, "C07 quoted status of a number read back unchanged");
-        POST(rt_same_ustr(w->as_numb.text, v->as_numb.text) && w->as_numb.sign == v->as_numb.sign && w->as_numb.scale == v->as_numb.scale
-             && rt_same_str(w->as_numb.digits, v->as_numb.digits) && rt_same_str(w->as_numb.su_digits, v->as_numb.su_digits), "C07 text, sign, digits, uncertainty and scale read back identical");
-        REACH("numb-roundtrip");
+    for (int i = 0; i < RTN; i++) PRE(in.text[i] != 0);
+#ifdef RT_NUMB
+    const cif_kind_tp kind = CIF_NUMB_KIND;
+#else
+    const cif_kind_tp kind = CIF_CHAR_KIND;
+#endif
+    rt_fill_text(&in, kind == CIF_NUMB_KIND);
+    { const ssize_t n = RTN; memcpy(rt_raw + L_KIND, &kind, sizeof kind); memcpy(rt_raw + L_SIZE, &n, sizeof n); }
+    for (int i = 0; i < RTN; i++) memcpy(rt_raw + L_TEXT + i * sizeof(UChar), &rt_text[i], sizeof(UChar));
+    memcpy(rt_raw + L_QUOT, &in.quoted, sizeof in.quoted);
+    cif_value_tp *dw = malloc(sizeof *dw); PRE(dw != NULL); dw->kind = CIF_UNK_KIND;
+    int r = cif_value_deserialize(rt_raw, L_END, dw);
+    PRE(r != CIF_MEMORY_ERROR);
+    if (in.quoted == CIF_QUOTED || in.quoted == CIF_NOT_QUOTED) {
+        POST(r == CIF_OK && dw->kind == kind, "C07 a stored value is read back with its kind");
+        if (r == CIF_OK) {
+            POST(dw->as_char.quoted == (cif_quoted_tp)in.quoted, "C07 the quoted status is read back unchanged");
+            POST(dw->as_char.text != NULL && dw->as_char.text != rt_text, "C07 the text read back lives in storage of its own");
+            for (int i = 0; i <= RTN; i++) POST(dw->as_char.text[i] == rt_text[i], "C07 the text is read back unit for unit, NUL-terminated");
+#ifdef RT_NUMB
+            POST(dw->as_numb.sign == -1 && dw->as_numb.scale == 0 && dw->as_numb.digits != NULL && dw->as_numb.su_digits != NULL, "C07 a number read back carries its parsed form");
+            POST(dw->as_numb.digits[0] == '1' && dw->as_numb.digits[1] == '5' && dw->as_numb.digits[2] == '0' && dw->as_numb.digits[3] == 0, "C07 digits of -1.50e2(3)");
+            POST(dw->as_numb.su_digits[0] == '3' && dw->as_numb.su_digits[1] == 0, "C07 su digits of -1.50e2(3)");
+#endif
+            REACH("read-back");
+        }
+    } else {
+        POST(r != CIF_OK, "C07 a stream with an invalid quoted flag is refused");
+        REACH("bad-flag");
     }
 }
+#endif
